@@ -162,3 +162,31 @@ inline bool in_budget(const Norms& a, const Norms& b) {
 }
 
 }  // namespace orc
+
+namespace orc {
+// exact column j of a vector-matrix product: sum_{i<rows} a_i * M[i][j]  (a_i at a + i*a_sl, M row-major nrows x ncols of
+// polynomials of n coefficients); also returns the summed C01 bound  sum_i E_i.
+inline void vmp_column_exact(uint64_t n, uint64_t rows, const int64_t* a, uint64_t a_sl, const int64_t* mat, uint64_t ncols,
+                             uint64_t j, i128* out, long double* Esum) {
+  for (uint64_t q = 0; q < n; ++q) out[q] = 0;
+  *Esum = 0;
+  if (rows == 0) return;
+  if (n <= 256) {
+    std::vector<i128> t(n);
+    for (uint64_t i = 0; i < rows; ++i) {
+      const int64_t* m = mat + (i * ncols + j) * n;
+      negacyclic_schoolbook(n, a + i * a_sl, m, t.data());
+      for (uint64_t q = 0; q < n; ++q) out[q] += t[q];
+      *Esum += fft64_E(n, norms(n, a + i * a_sl), norms(n, m));
+    }
+  } else {
+    GEval acc;
+    for (uint64_t i = 0; i < rows; ++i) {
+      const int64_t* m = mat + (i * ncols + j) * n;
+      gaccumulate(acc, geval(n, a + i * a_sl), geval(n, m));
+      *Esum += fft64_E(n, norms(n, a + i * a_sl), norms(n, m));
+    }
+    gcoeffs(acc, out);
+  }
+}
+}  // namespace orc
